@@ -1,6 +1,7 @@
 import LyModel.XmlTree.Model
 import LyModel.XmlTree.Spec
 import LyModel.XmlTree.Opaq
+import LyModel.XmlTree.OpaqCheck
 /-! driver ops of component `xmltree`: `print <rows-hex>` — rows as printed by harness `api_rt` (`view`);
     `opaqprint <view-hex>` — the opaque-node view of harness op `opaqview`, printed by the v2 model with `Fixes.current`. -/
 namespace LyModel.XmlTree.Drv
@@ -162,6 +163,24 @@ def handle (op : String) (args : List String) : String :=
       match opaqForest b with
       | .error e => "err " ++ e
       | .ok forest => "ok " ++ Hex.enc (printOpaqData Fixes.current forest)
+  | "opaqcheck", [h, hp] =>
+    -- the hypothesis of `opaque_document_faithful` evaluated on the view; the model's output against libyang's bytes; the
+    -- independent reader applied to LIBYANG's bytes against what the theorem says it reports (`oviewList`)
+    match Hex.dec h, Hex.dec hp with
+    | some b, some px =>
+      match opaqForest b with
+      | .error e => "err " ++ e
+      | .ok forest =>
+        let why := (olistWhy false forest).eraseDups
+        let same := printOpaqData Fixes.current forest == px
+        let read := match XmlDoc.parseDoc px with
+          | none => "x"
+          | some es => if dumpElems 0 es == dumpElems 0 (oviewList forest) then "1" else "0"
+        -- <opaqOk> <why> <print = libyang> <reader(libyang) = oviewList> <opaqOkAnyNs> <the source has the repair of F300>
+        "ok " ++ (if opaqOk forest then "1" else "0") ++ " " ++ (if why.isEmpty then "-" else ",".intercalate why) ++ " " ++
+          (if same then "1" else "0") ++ " " ++ read ++ " " ++ (if opaqOkAnyNs forest then "1" else "0") ++ " " ++
+          (if Fixes.current.undeclare then "1" else "0")
+    | _, _ => "err BadHex"
   | "specparse", [h] =>
     match Hex.dec h with
     | none => "err BadHex"
